@@ -24,7 +24,7 @@ RULE_TEXT = ('runs = deterministic sweep over every (phase step x position x fau
              'set of disturbance kinds executed).')
 REACH_PROBES = ['keep', 'no_keep', 'sandbox_created', 'no_sandbox', 'ended_by_fault_with_sandbox', 'ended_pass',
                 'cd_executed', 'env_executed', 'tmp_file_by_case', 'child_wrote_file', 'chmod_readonly',
-                'child_left_symlink', 'child_left_odd_entries', 'result_observed_after_act', 'result_observed_before_act', 'double_fault', 'keep_after_failure',
+                'child_left_symlink', 'child_left_odd_entries', 'child_removed_cwd', 'cwd_deleted_when_execution_ends', 'result_observed_after_act', 'result_observed_before_act', 'double_fault', 'keep_after_failure',
                 'cwd_in_tmp_at_end']
 
 PFX = casegen.PREFIX
@@ -33,7 +33,7 @@ PFX = casegen.PREFIX
 def _disturbers(g, phase, n, dirs):
     """A random disturbing item for `phase`; n = unique counter."""
     menu = ['file_tmp', 'file_act', 'file_cwd', 'dir_cd', 'cd_tmp', 'cd_act', 'env', 'child_write', 'child_chmod',
-            'child_symlink', 'child_odd']
+            'child_symlink', 'child_odd', 'child_rmdir_cwd']
     if phase == 'setup':
         menu += ['unenv', 'env', 'dir_cd']
     k = g.choice(menu)
@@ -59,6 +59,14 @@ def _disturbers(g, phase, n, dirs):
         return [{'k': 'probe', 'id': ident, 'form': g.choice(['%', 'run', '$']),
                  'fx': [['mk', '$CWD', 'k%d.txt' % n]],
                  'beh': {'actions': [{'op': 'write_file', 'path': '$CWD/k%d.txt' % n, 'text': 'k'}]}}]
+    if k == 'child_rmdir_cwd':
+        # the test stands in a directory that a child then removes (legal); the next instruction goes back to act/
+        ident = '%sr%d' % (PFX[phase], n)
+        return [{'k': 'real', 'text': 'dir -rel-act rd%d' % n, 'fx': [['mk', 'act', 'rd%d' % n]]},
+                {'k': 'real', 'text': 'cd -rel-act rd%d' % n, 'fx': [['cd', 'act/rd%d' % n]]},
+                {'k': 'probe', 'id': ident, 'form': '%', 'noarm': True, 'fx': [['rmcwd', 'rd%d' % n]],
+                 'beh': {'actions': [{'op': 'rmdir', 'path': '$SBX/act/rd%d' % n}]}},
+                {'k': 'real', 'text': 'cd -rel-act .', 'fx': [['cd', 'act']]}]
     if k == 'child_odd':
         # other things a child can leave behind: a FIFO, names with spaces / leading dash / non-ASCII, a deep tree
         ident = '%so%d' % (PFX[phase], n)
@@ -108,6 +116,16 @@ def disturb(case, procs, g, density=0.6):
             if it is not None:
                 out.append(it)
         case[ph] = out
+    if g.random() < 0.15:
+        # the very last thing the case does: stand in a directory and have a child remove it - the process's current
+        # directory no longer exists when execution ends
+        n += 1
+        ident = 'lr%d' % n
+        procs[ident] = {'exit': 0, 'actions': [{'op': 'rmdir', 'path': '$SBX/act/rd%d' % n}]}
+        case['cleanup'].extend([
+            {'k': 'real', 'text': 'dir -rel-act rd%d' % n, 'fx': [['mk', 'act', 'rd%d' % n]]},
+            {'k': 'real', 'text': 'cd -rel-act rd%d' % n, 'fx': [['cd', 'act/rd%d' % n]]},
+            {'k': 'probe', 'id': ident, 'form': '%', 'noarm': True, 'fx': [['rmcwd', 'rd%d' % n], ['rmcwd_final']]}])
 
 
 _SWEEP = {}
@@ -309,6 +327,12 @@ def _model(plan, hist):
                 st['kinds'].add('symlink')
             elif fx[0] == 'odd':
                 st['kinds'].add('odd')
+            elif fx[0] == 'rmcwd_final':
+                st['kinds'].add('rmcwd_final')
+            elif fx[0] == 'rmcwd':
+                st['act'].discard(fx[1])
+                st['cwd'] = '<deleted>'
+                st['kinds'].add('rmcwd')
     return expect, st, {'primary': primary, 'ploc': ploc, 'has_atc': has_atc}
 
 
@@ -327,7 +351,8 @@ def _probes(plan, hist):
     for k, name in (('cd', 'cd_executed'), ('env', 'env_executed'), ('mk_tmp', 'tmp_file_by_case'),
                     ('mk_act_child', 'child_wrote_file'), ('mk_tmp_child', 'child_wrote_file'),
                     ('chmod', 'chmod_readonly'), ('symlink', 'child_left_symlink'),
-                    ('odd', 'child_left_odd_entries')):
+                    ('odd', 'child_left_odd_entries'), ('rmcwd', 'child_removed_cwd'),
+                    ('rmcwd_final', 'cwd_deleted_when_execution_ends')):
         if k in st['kinds']:
             pr[name] = 1
     for e in hist['events']:
